@@ -1,7 +1,7 @@
 (* PropC16.v — property theorems for C16 (offline providers honour the provider contract).
    All statements are about ProvModel.v, the model tied to MockProvider by harness/checks/c16.py. *)
 From Coq Require Import NArith List Bool.
-From CS Require Import Sx Str ProvModel ProvProofs ProvBounded.
+From CS Require Import Sx Str ProvModel ProvProofs ProvBounded ProvWf ProvMove ProvRename ProvSubtree ProvListdir ProvSpecified.
 Import ListNotations.
 
 (* ---- object ids: for EVERY call sequence and every flavour, heap cell r (one MockFSObject) has
@@ -179,10 +179,106 @@ Theorem C16_connect_identity_sticks : forall ident c o i, cn_id c = Some i -> (f
 Proof. exact identity_sticks. Qed.
 Print Assumptions C16_connect_identity_sticks.
 
-(* ---- well-formedness of the tree *)
+(* ---- well-formedness of the tree (wfb: the root is a live folder; every live object is filed under
+   its own normalised path and under its oid, has the oid its flavour prescribes and a live FOLDER as
+   parent — so files are leaves —; no live object is listed twice).
+
+   HEADLINE: wfb holds in every state reachable by a call sequence of ANY length that satisfies the
+   guard guard_op (ProvModel.v), in every flavour with sane_cfg.  The guard is a decidable predicate on
+   the call and the state it meets, and has three parts, each one a defect class of the mock and each
+   one shown necessary below:
+     (G1) flavour: not (oid_is_path and case-insensitive)                              [finding C16-F4]
+     (G2) no rename whose target lies strictly inside the renamed object's own subtree [finding C16-F5]
+     (G3) the root folder is not removed: no delete of the root, "/" is no rename target [finding C16-F7]
+   Nothing is asked of the keys: a path string used as an oid (C16-F6) is allowed. *)
 Definition n_a : name := [97%N].   Definition n_A : name := [65%N].   Definition n_b : name := [98%N].
+Definition n_c : name := [99%N].
 Definition cfg_of (oidpath cs : bool) : cfg := {| c_oidpath := oidpath; c_cs := cs; c_forbidden := [] |}.
 
+Theorem C16_wf_reachable_guarded : forall c ops,
+  sane_cfg c = true -> guarded_run (init c) ops = true -> wfb (fst (run_ops (init c) ops)) = true.
+Proof. exact wf_reachable_guarded. Qed.
+Print Assumptions C16_wf_reachable_guarded.
+
+(* the invariant behind it (ProvWf.v), and its two halves: the dictionary structure S_inv needs no guard *)
+Theorem C16_inv_reachable_guarded : forall c ops,
+  sane_cfg c = true -> guarded_run (init c) ops = true -> INV (fst (run_ops (init c) ops)).
+Proof. exact INV_reachable_guarded. Qed.
+Print Assumptions C16_inv_reachable_guarded.
+
+Theorem C16_inv_step_guarded : forall s o, INV s -> guard_op s o = true -> INV (fst (step s o)).
+Proof. exact INV_step. Qed.
+Print Assumptions C16_inv_step_guarded.
+
+Theorem C16_inv_wf : forall s, INV s -> wfb s = true.
+Proof. exact INV_wfb. Qed.
+Print Assumptions C16_inv_wf.
+
+Theorem C16_structure_every_sequence : forall c ops, sane_cfg c = true -> S_inv (fst (run_ops (init c) ops)).
+Proof. exact S_run. Qed.
+Print Assumptions C16_structure_every_sequence.
+
+(* the calls an engine makes (clean_run: additionally genuine oids, see ProvModel.clean_op) are guarded *)
+Theorem C16_wf_reachable_clean : forall c ops,
+  sane_cfg c = true -> clean_run (init c) ops = true -> wfb (fst (run_ops (init c) ops)) = true.
+Proof. exact wf_reachable_clean. Qed.
+Print Assumptions C16_wf_reachable_clean.
+
+(* ---- rename moves the subtree, and nothing else.  For a successful guarded rename of the live object
+   o (found under key k, at path old) to the different path p, in a state satisfying INV:
+   the oid returned is o's (id-style) or the new path (path-style);
+   (1) for EVERY relative path rel, the object that was found at old ++ rel is found at p ++ rel: the same
+       heap cell, with the same kind, contents and existence, the same oid (id-style) or oid = new path
+       (path-style), and the path p ++ <its own display suffix> (mv);
+   (2) the old paths old ++ rel are free (unless only the case of the name changed: np old = np p);
+   (3) every live object outside the subtree, except an empty folder that was at p, is found unchanged
+       under its path;
+   (4) every live object found afterwards is one of (1) or (3). *)
+Theorem C16_rename_moves_subtree : forall s k p s' k' r o,
+  INV s -> guard_op s (ORename k p) = true ->
+  get_live s k = Some (r, o) -> rename s k p = (s', Ok k') -> path_eqb (o_path o) p = false ->
+  let c := p_cfg s in let old := o_path o in
+  p_cfg s' = c /\
+  k' = (if c_oidpath c then KPath p else o_oid o) /\
+  (forall rel q x, get_live s (pkey s (old ++ rel)) = Some (q, x) ->
+     get_live s' (pkey s' (p ++ rel)) = Some (q, mv c old p x)) /\
+  (np c old <> np c p -> forall rel, get_live s' (pkey s' (old ++ rel)) = None) /\
+  (forall P q y, get_live s (pkey s P) = Some (q, y) -> ~ at_under c old P -> np c P <> np c p ->
+     get_live s' (pkey s' P) = Some (q, y)) /\
+  (forall P q y', get_live s' (pkey s' P) = Some (q, y') ->
+     (exists rel x, np c P = np c (p ++ rel) /\ get_live s (pkey s (old ++ rel)) = Some (q, x) /\
+                    y' = mv c old p x) \/
+     (get_live s (pkey s P) = Some (q, y') /\ ~ at_under c old P)).
+Proof. exact rename_moves_subtree. Qed.
+Print Assumptions C16_rename_moves_subtree.
+
+(* what mv keeps and what it sets *)
+Theorem C16_moved_cell : forall c old p x,
+  o_kind (mv c old p x) = o_kind x /\ o_data (mv c old p x) = o_data x /\ o_exists (mv c old p x) = o_exists x /\
+  o_path (mv c old p x) = p ++ skipn (length old) (o_path x) /\
+  o_oid (mv c old p x) = (if c_oidpath c then KPath (p ++ skipn (length old) (o_path x)) else o_oid x).
+Proof. exact (fun c old p x => conj eq_refl (conj eq_refl (conj eq_refl (conj eq_refl eq_refl)))). Qed.
+Print Assumptions C16_moved_cell.
+
+(* ---- listdir from well-formedness: exactly the live objects whose parent path is the folder, each once *)
+Theorem C16_listdir_exact_wf : forall s k l, INV s -> listdir s k = Ok l ->
+  exists r o, get_live s k = Some (r, o) /\ o_kind o = KDir /\
+    (forall i, In i l <-> exists q x, nth_error (p_heap s) q = Some x /\ o_exists x = true /\
+                                      is_child (p_cfg s) (o_path o) (o_path x) = true /\ i = info_of x) /\
+    NoDup (map i_oid l) /\ NoDup l.
+Proof. exact listdir_exact_wf. Qed.
+Print Assumptions C16_listdir_exact_wf.
+
+(* ---- the loop of MockProvider.rename runs over a Python set; where its result would depend on the
+   iteration order the model answers EUnspecified (ProvModel.move_specified).  From a state satisfying
+   INV a guarded call never meets that case (nor the "" path, nor a vanished heap cell): for guarded
+   sequences the model is a total description of the mock *)
+Theorem C16_guarded_never_unspecified : forall s o, INV s -> guard_op s o = true ->
+  snd (step s o) <> Err EUnspecified.
+Proof. exact step_specified. Qed.
+Print Assumptions C16_guarded_never_unspecified.
+
+(* ---- the unguarded statements are false of the faithful model; each part of the guard is necessary *)
 (* full strength, every call sequence: false — a folder can be renamed into itself, which orphans it *)
 Definition wf_every_sequence_full : Prop :=
   forall c ops, wfb (fst (run_ops (init c) ops)) = true.
@@ -204,17 +300,67 @@ Proof.
 Qed.
 Print Assumptions C16_prov_wf_clean_refuted.
 
-(* what is proved about wf: for the three flavours other than (oid_is_path, case-insensitive), EVERY clean
-   sequence of at most 3 calls over the alphabet ProvBounded.balpha (create/mkdir/rename/delete/upload on
-   the paths /a /A /b /a/b and the first three oids) ends in a well-formed state.  The bound is part of the
-   statement; beyond it wf is only monitored (the check evaluates wfb after every call of every explored
-   clean sequence).  Missing: an inductive proof that clean calls preserve wf (folder renames move dead
-   dictionary entries too, which makes the invariant large). *)
+(* (G1) dropped: the guarded statement for every flavour — same witness (C16-F4) *)
+Definition wf_guarded_every_flavour_full : Prop :=
+  forall c ops, guarded_run (init c) ops = true -> wfb (fst (run_ops (init c) ops)) = true.
+Theorem C16_wf_guard_flavour_needed : ~ wf_guarded_every_flavour_full.
+Proof.
+  intros H. specialize (H (cfg_of true false) [OCreate [n_A] 1%N] eq_refl).
+  vm_compute in H. discriminate.
+Qed.
+Print Assumptions C16_wf_guard_flavour_needed.
+
+(* (G2) dropped: only the root clauses of the guard — mkdir /a; rename /a -> /a/b (C16-F5) *)
+Definition guard_root_only (s : prov) (o : op) : bool :=
+  match o with
+  | ORename _ p => nonroot p
+  | ODelete k => match get_live s k with Some (_, x) => nonroot (o_path x) | None => true end
+  | _ => true
+  end.
+Fixpoint run_guarded_by (g : prov -> op -> bool) (s : prov) (ops : list op) : bool :=
+  match ops with
+  | [] => true
+  | o :: t => g s o && run_guarded_by g (fst (step s o)) t
+  end.
+Definition wf_root_guard_only_full : Prop :=
+  forall c ops, sane_cfg c = true -> run_guarded_by guard_root_only (init c) ops = true ->
+                wfb (fst (run_ops (init c) ops)) = true.
+Theorem C16_wf_guard_subtree_needed : ~ wf_root_guard_only_full.
+Proof.
+  intros H. specialize (H (cfg_of false true) [OMkdir [n_a]; ORename (KId 1%N) [n_a; n_b]] eq_refl eq_refl).
+  vm_compute in H. discriminate.
+Qed.
+Print Assumptions C16_wf_guard_subtree_needed.
+
+(* (G3) dropped: only the subtree clause of the guard — delete of the (empty) root succeeds and leaves
+   a tree without root, below which objects can still be created (C16-F7) *)
+Definition guard_subtree_only (s : prov) (o : op) : bool :=
+  match o with
+  | ORename k p => match get_live s k with
+                   | Some (_, x) => negb (is_under (p_cfg s) (o_path x) p)
+                   | None => true
+                   end
+  | _ => true
+  end.
+Definition wf_subtree_guard_only_full : Prop :=
+  forall c ops, sane_cfg c = true -> run_guarded_by guard_subtree_only (init c) ops = true ->
+                wfb (fst (run_ops (init c) ops)) = true.
+Theorem C16_prov_wf_root_removed_refuted : ~ wf_subtree_guard_only_full.
+Proof.
+  intros H. specialize (H (cfg_of false true) [ODelete (KId 0%N); OCreate [n_a] 1%N] eq_refl eq_refl).
+  vm_compute in H. discriminate.
+Qed.
+Print Assumptions C16_prov_wf_root_removed_refuted.
+
+(* the earlier, bounded statement (ProvBounded.v) — still true, now a special case of
+   C16_wf_reachable_clean: the three sane flavours, every clean sequence of at most 3 calls over the
+   alphabet ProvBounded.balpha, by vm_compute *)
 Theorem C16_prov_wf_partial : forall c ops, In c bcfgs -> In ops (seqs (balpha c) 3) ->
   clean_run (init c) ops = true -> wfb (fst (run_ops (init c) ops)) = true.
 Proof. exact wf_bounded. Qed.
 Print Assumptions C16_prov_wf_partial.
 
+(* ---- non-vacuity *)
 Example wf_partial_nonvacuous :
   In [OMkdir [bn_a]; OCreate [bn_a; bn_b] 1%N; ORename (KId 1%N) [bn_b]] (seqs (balpha (bcfg false true)) 3) /\
   clean_run (init (bcfg false true)) [OMkdir [bn_a]; OCreate [bn_a; bn_b] 1%N; ORename (KId 1%N) [bn_b]] = true.
@@ -227,9 +373,40 @@ Example wf_init_all_flavours :
   forallb (fun c => wfb (init c)) [cfg_of false true; cfg_of false false; cfg_of true true; cfg_of true false] = true.
 Proof. vm_compute. reflexivity. Qed.
 
-(* non-vacuity: a clean sequence with nested folders, a folder move and a case-only rename keeps wf *)
+Example sane_flavours : map sane_cfg [cfg_of false true; cfg_of false false; cfg_of true true; cfg_of true false]
+                        = [true; true; true; false].
+Proof. reflexivity. Qed.
+
+(* a clean sequence with nested folders, a folder move and a case-only rename keeps wf *)
 Example wf_clean_example :
   let ops := [OMkdir [n_a]; OCreate [n_a; n_b] 7%N; OMkdir [n_b]; ORename (KId 1%N) [n_b; n_A];
               ORename (KId 2%N) [n_b; n_A; n_A]; ODelete (KId 2%N)] in
   clean_run (init (cfg_of false false)) ops = true /\ wfb (fst (run_ops (init (cfg_of false false)) ops)) = true.
 Proof. vm_compute. auto. Qed.
+
+(* a guarded sequence that is not clean (a path string used as oid, a dead oid, a rename over an empty
+   folder, a folder moved with a dead entry below it), nine calls, in each sane flavour: the guard holds *)
+Example guarded_not_clean_example :
+  let ops := [OMkdir [n_a]; OCreate [n_a; n_b] 7%N; OMkdir [n_c]; ODelete (KPath [n_a; n_b]);
+              OCreate [n_a; n_A] 3%N; ORename (KPath [n_a]) [n_c]; ODelete (KId 2%N);
+              ORename (KPath [n_c; n_A]) [n_b]; OUpload (KPath [n_b]) 9%N] in
+  forallb (fun c => guarded_run (init c) ops && negb (clean_run (init c) ops))
+          [cfg_of false true; cfg_of false false; cfg_of true true] = true.
+Proof. vm_compute. reflexivity. Qed.
+
+(* the hypotheses of C16_rename_moves_subtree are satisfiable: a folder with a file and a sub-folder
+   is moved into another folder (both id styles); the call is guarded, succeeds and is no no-op *)
+Example rename_moves_subtree_nonvacuous :
+  forallb (fun oidpath =>
+    let c := cfg_of oidpath true in
+    let s := fst (run_ops (init c) [OMkdir [n_a]; OCreate [n_a; n_b] 7%N; OMkdir [n_a; n_c]; OMkdir [n_b]]) in
+    let k := if oidpath then KPath [n_a] else KId 1%N in
+    guarded_run (init c) [OMkdir [n_a]; OCreate [n_a; n_b] 7%N; OMkdir [n_a; n_c]; OMkdir [n_b]]
+    && guard_op s (ORename k [n_b; n_a])
+    && match get_live s k with Some (_, o) => negb (path_eqb (o_path o) [n_b; n_a]) | None => false end
+    && match rename s k [n_b; n_a] with
+       | (s', Ok _) => exists_path s' [n_b; n_a; n_b] && exists_path s' [n_b; n_a; n_c]
+                       && negb (exists_path s' [n_a; n_b]) && negb (exists_path s' [n_a])
+       | _ => false
+       end) [false; true] = true.
+Proof. vm_compute. reflexivity. Qed.
